@@ -18,12 +18,13 @@ def enc(cdc, obj, defMode):
 class Shape(object):
     """one container type with an ANY (or SET OF/SEQUENCE OF ANY) field governed by `id`"""
 
-    def __init__(self, container, id_kind, tagging, multi, typemap):
+    def __init__(self, container, id_kind, tagging, multi, typemap, optional=False):
         self.container = container      # 'seq' | 'set'
         self.id_kind = id_kind          # 'int' | 'oid'
         self.tagging = tagging          # None | ('i', n) | ('e', n)
         self.multi = multi              # None | 'seqof' | 'setof'
         self.typemap = typemap          # {governing value: type tuple}
+        self.optional = optional        # the open type field is declared OPTIONAL (and present in every value built)
         any_spec = univ.Any()
         if tagging:
             tg = tag.Tag(tag.tagClassContext, tag.tagFormatSimple, tagging[1])
@@ -48,16 +49,17 @@ class Shape(object):
         cls = univ.Sequence if container == 'seq' else univ.Set
         self.schema = cls(componentType=namedtype.NamedTypes(
             namedtype.NamedType('id', id_type),
-            namedtype.NamedType('value', field, openType=self.open)))
+            (namedtype.OptionalNamedType if optional else namedtype.NamedType)('value', field, openType=self.open)))
         the_map.update(full)
 
     def key(self, g):
         return univ.Integer(g) if self.id_kind == 'int' else univ.ObjectIdentifier(g)
 
     def describe(self):
-        return '%s{id %s, value %s%sANY} map=%s' % (
+        return '%s{id %s, value %s%sANY%s} map=%s' % (
             self.container.upper(), self.id_kind, (self.multi.upper() + ' ') if self.multi else '',
             ('[%d] %s ' % (self.tagging[1], 'EXPLICIT' if self.tagging[0] == 'e' else 'IMPLICIT')) if self.tagging else '',
+            ' OPTIONAL' if self.optional else '',
             {str(g): gen.ty_sexp(t) for g, t in self.typemap.items()})
 
     def build(self, g, inners, inner_types, own_collection=False):
@@ -252,7 +254,9 @@ def run(rep, tier, seed):
             # an untagged CHOICE as inner type has no single tag; fine. keep types WF
             tm[k] = t
         try:
-            shape = Shape(container, id_kind, tagging, multi, tm)
+            shape = Shape(container, id_kind, tagging, multi, tm, optional=rng.random() < 0.35)
+            if shape.optional:
+                rep.count('optional-open-type-field')
         except Exception as e:  # noqa
             rep.fail('schema-' + codec.classify(e), 'cannot build the container type: %r' % (e,), {'kind': 'schema'})
             continue
